@@ -4,15 +4,29 @@
 use libfuzzer_sys::fuzz_target;
 use mech_core::*;
 
+/// libfuzzer-sys aborts on ANY panic, also one the code under test catches itself and turns into an error; the property speaks about what
+/// the caller sees, so the hook is silenced once and only a panic that escapes the API call aborts the process
+fn escaped<F: FnOnce() + std::panic::UnwindSafe>(f: F) {
+  static ONCE: std::sync::Once = std::sync::Once::new();
+  ONCE.call_once(|| std::panic::set_hook(Box::new(|_| {})));
+  if let Err(e) = std::panic::catch_unwind(f) {
+    let msg = e.downcast_ref::<String>().cloned().or_else(|| e.downcast_ref::<&str>().map(|s| s.to_string())).unwrap_or_default();
+    eprintln!("panic escaped: {}", msg);
+    std::process::abort();
+  }
+}
+
 fuzz_target!(|data: &[u8]| {
   if data.len() < 8 { return; }
   let mut b = data.to_vec();
   let n = b.len() - 4;
   let crc = crc32fast::hash(&b[..n]);
   b[n..].copy_from_slice(&crc.to_le_bytes());
-  if let Ok(p) = ParsedProgram::from_bytes(&b) {
-    let _ = p.decode_const_entries();
-    let _ = p.validate();
-    let _ = p.to_bytes();
-  }
+  escaped(move || {
+    if let Ok(p) = ParsedProgram::from_bytes(&b) {
+      let _ = p.decode_const_entries();
+      let _ = p.validate();
+      let _ = p.to_bytes();
+    }
+  });
 });
